@@ -263,7 +263,9 @@ class CachedStore(Entity):
             Number of entries flushed.
         """
         flushed = 0
-        for key in list(self._dirty_keys):
+        # Sorted: the iteration order of a set of strings changes with PYTHONHASHSEED,
+        # and the order of the write-backs is observable (timing, overlap with other calls).
+        for key in sorted(self._dirty_keys):
             if key in self._cache:
                 value = self._cache[key]
                 yield from self._backing_store.put(key, value)
@@ -324,7 +326,7 @@ class CachedStore(Entity):
         Returns:
             List of dirty keys.
         """
-        return list(self._dirty_keys)
+        return sorted(self._dirty_keys)
 
     def handle_event(self, event: Event) -> None:
         """CachedStore can handle events for cache operations."""
